@@ -146,9 +146,37 @@ def point_to_choices(dims, nleaves, ntoks, point):
 REFUSED = ["<A><B1>x</B1>", "<A></B1>", "<A><B1></A></B1>", "<A>x</A>junk"]
 
 
+def reuse_tree_phase(t, term):
+    """three renderings of one term read one after another through ONE OFXTree object (v2 header + body)"""
+    import io
+
+    from ofxtools.Parser import OFXTree
+
+    from vf import ref_header as H
+
+    toks, nleaves = ref_sgml.tokens(term)
+    head = H.render_v2(H.v2_fields(203))
+    tree = OFXTree()
+    for which, (lo, gap) in enumerate((({}, 0), ({leaf: (True, False) for leaf in range(nleaves) if ref_sgml.can_omit(toks, leaf)}, 2), ({}, 3))):
+        text = ref_sgml.render(term, lo, [gap] * (len(toks) + 1))
+        t.count("evaluations")
+        try:
+            root = tree.parse(io.BytesIO((head + text).encode("utf_8")))
+            got = ref_sgml.et_to_term(root)
+        except Exception as e:
+            t.fail(f"C02|reused-OFXTree|parse-{which + 1}|raises-{type(e).__name__}", {"term": term, "leafopts": sorted(lo.items()), "gaps": [gap] * (len(toks) + 1)}, f"{type(e).__name__}: {e} on rendering #{which + 1} {text!r}")
+            return
+        if got != term:
+            t.fail(f"C02|reused-OFXTree|parse-{which + 1}|wrong-tree", {"term": term, "leafopts": sorted(lo.items()), "gaps": [gap] * (len(toks) + 1)}, f"{text!r} -> {got!r}")
+            return
+    t.outcome("reused-tree-ok")
+
+
 def work(chunk):
     t = Tally()
     for n, (term, k) in enumerate(chunk):
+        if n % 10 == 0:
+            reuse_tree_phase(t, term)
         if n % 25 == 0:
             # the property holds whatever was parsed before - in particular after a document that was refused
             for bad in REFUSED:
@@ -221,6 +249,7 @@ def run(ctx):
         "assumptions": [
             "tag alphabet of three names stands for all names over [A-Z0-9._]; data alphabet of seven values",
             "white space adjacent to a CDATA section inside its own element is not in the rendering alphabet",
+            "every 10th tree is also read in three renderings through one re-used OFXTree object (v2 header + body)",
             "every 25th tree is preceded by four malformed bodies (their refusal is C08's business; here they only precede the well-formed ones)",
             "root of a body is an aggregate",
         ],
